@@ -258,6 +258,9 @@ def main():
     chk.cov['distinct_nontrivial'] = nt
     for tid in sorted(byid)[:1] + sorted(byid)[len(byid) // 2:len(byid) // 2 + 2]:
         chk.sample({'record': meta[tid], 'deck_text': byid[tid]['text'], 'verdict': verdicts.get(tid)})
+    # one universe placed twice with different GENERAL rotations (exact twin deck with translations, points mapped)
+    from . import turned
+    turned.run(chk, thorough, chk.seed)
     chk.extra['rule'] = ('distinct = distinct (surface, rotation, displacement, carrier, spelling) records; non-trivial = '
                          'the motion is not the identity and both probe cells own probe points')
     chk.extra['generated_records'] = ntotal
